@@ -184,6 +184,7 @@ func TestCompiledRouting(t *testing.T) {
 	for i := 0; len(specs) < n && i < 40*n; i++ {
 		f := g.Example(seedBase*1000 + shardIdx*100000 + i)
 		f.ID = len(specs)
+		f.Twin = false
 		if len(f.Services) == 0 || f.goNameProblems() != "" {
 			continue
 		}
